@@ -15,10 +15,11 @@
      calc_single, calc_N_eq_len_I, calc_largest_roundtrip;
      calc_parse_total      the calc-specific parsers are total on every NUL-terminated argument (never Oob).
      calc_denotes_physical the same for physical indexes, forms X and X-Y;
-     calc_open_range_beyond_level_empty, calc_denotes_domain: after fix 01261ca [chain_ok] excludes only numbers
-                           that do not fit in an int.
-   Refuted on the faithful model (replayed on the real tool, see known_findings.txt): long->int truncation
-   of the typed numbers (assert / 2^32 iterations), physical all/odd/even/X-. *)
+     calc_open_range_beyond_level_empty, calc_denotes_domain, calc_parsed_range_fits_int,
+     calc_parsed_range_in_domain: after fixes 01261ca and 99dfc63 every range the parser accepts (for every
+                           string) is in the domain of calc_denotes.
+   Refuted on the faithful model (replayed on the real tool, see known_findings.txt): signed overflow of
+   last-first+1 for last = LONG_MAX (UB), physical all/odd/even/X-. *)
 From Coq Require Import List NArith ZArith Bool String.
 From HV Require Import Base.BSet Base.Bytes Gen.Tables Topo.Dump Topo.Obj Topo.Helpers Text.Calc Text.CalcProofs.
 Import ListNotations.
@@ -167,18 +168,35 @@ Example calc_reversed_and_negative_rejected :
   /\ parse_chain nat ex_resolve 20 (cstr "0:-1") 0 = Ok (PChain CFail).
 Proof. vm_compute. repeat split. Qed.
 
+(* ================= after fix 99dfc63: every accepted range fits in an int ================= *)
+(* for EVERY string and start position: a range accepted by hwloc_calc_parse_range has a first index in
+   [0, INT_MAX], step 1 (2 only for odd/even), and an amount that is either the "to the end" marker
+   without wrap-around or lies in [0, INT_MAX]: no long -> int truncation, no negative amount, the
+   assert() of hwloc_calc_append_object_range unreachable.  (Single exception, [ub_marker]: see below.) *)
+Theorem calc_parsed_range_fits_int : forall s p r dot,
+  parse_range s p = Ok (Some r, dot) -> r = ub_marker \/ range_wf r.
+Proof. exact parse_range_wf. Qed.
+Print Assumptions calc_parsed_range_fits_int.
+
+(* hence every parsed range is in the domain of calc_denotes, for every level an int can count *)
+Theorem calc_parsed_range_in_domain : forall r w, range_wf r -> 0 <= w < 2147483648 -> range_ok r w.
+Proof. exact range_wf_ok. Qed.
+Print Assumptions calc_parsed_range_in_domain.
+
+Example calc_int_truncation_rejected :
+  parse_range (cstr "0:4294967295") 0 = Ok (None, None) /\ parse_range (cstr "0-4294967293") 0 = Ok (None, None)
+  /\ parse_range (cstr "4294967296") 0 = Ok (None, None) /\ parse_range (cstr "2147483648") 0 = Ok (None, None)
+  /\ parse_range (cstr "2147483647") 0 = Ok (Some (RG 2147483647 1 1 false), None)
+  /\ range_wf (RG 2147483647 1 1 false).
+Proof. vm_compute. intuition (try discriminate; auto). Qed.
+
 (* ================= what is still refuted on the faithful model ================= *)
-(* long -> int truncation of the numbers typed: "0:4294967295" still reaches the assert()
-   (hwloc-calc pu:0:4294967295 aborts), "0-4294967293" still iterates 2^32-2 times *)
-Theorem calc_int_truncation_refuted :
-  nul_terminated (cstr "0:4294967295")
-  /\ parse_chain nat ex_resolve 20 (cstr "0:4294967295") 0 = Ok (PChain CAbort)
-  /\ (forall acc, eval_chain nat ex_objs true None CAbort 1%nat (bs_of_N 15) (bs_of_N 1) acc = EAbortR)
-  /\ parse_range (cstr "0-4294967293") 0 = Ok (Some (RG 0 (-2) 1 false), None)
-  /\ loop_count (RG 0 (-2) 1 false) 4 = 4294967294.
-Proof.
-  split; [exact nul_terminated_cstr_trunc|]. split; [vm_compute; reflexivity|]. split; [reflexivity|]. vm_compute. split; reflexivity.
-Qed.
+(* "0-9223372036854775807": last-first+1 overflows long before the INT_MAX test (undefined behaviour;
+   the UBSan build aborts: hwloc-calc pu:0-9223372036854775807).  Modelled as [ub_marker] -> CAbort. *)
+Theorem calc_long_overflow_refuted :
+  parse_range (cstr "0-9223372036854775807") 0 = Ok (Some ub_marker, None)
+  /\ parse_chain nat ex_resolve 20 (cstr "0-9223372036854775807") 0 = Ok (PChain CAbort).
+Proof. vm_compute. split; reflexivity. Qed.
 
 (* ================= physical indexes ================= *)
 (* forms X and X-Y with -p/--pi: for every number of the interval the FIRST object inside the parent
